@@ -5,6 +5,25 @@ static ALLOC: vc_load::alloc::CountingAlloc = vc_load::alloc::CountingAlloc;
 
 fn main() {
     let a: Vec<String> = std::env::args().collect();
+    if a.get(1).map(|s| s.as_str()) == Some("--ext") {
+        // vl-dbg --ext <location> <offset> <length> <u8|f32> <file|mmap>: load without any catch
+        let tree = vc_load::extdata::Tree::create();
+        let f32 = a[5] == "f32";
+        let model = vc_load::extdata::model_bytes(&a[2], a[3].parse().unwrap(), a[4].parse().unwrap(), f32);
+        let path = tree.model_dir.join("m.onnx");
+        std::fs::write(&path, &model).unwrap();
+        let mut opts = rten::ModelOptions::with_all_ops();
+        opts.enable_optimization(false);
+        let r = if a.get(6).map(|s| s.as_str()) == Some("mmap") { unsafe { opts.load_mmap(&path) } } else { opts.load_file(&path) };
+        match r {
+            Ok(m) => {
+                let y = m.node_id("y").unwrap();
+                println!("load ok; run: {:?}", m.run(vec![], &[y], None).map(|o| format!("{:?}", o[0])));
+            }
+            Err(e) => println!("load err: {e}"),
+        }
+        return;
+    }
     let mut bytes = std::fs::read(&a[1]).expect("read");
     if a[1].ends_with(".json") {
         let v: serde_json::Value = serde_json::from_slice(&bytes).unwrap();
